@@ -498,6 +498,56 @@ pub fn run(tier: Tier) -> i32 {
         }
     }
 
+    // ------------------------------------------------------------------ scope 3c: windows larger than 64 KiB that wrap (several times)
+    {
+        let name = "wrap/public+raw/dict>64KiB";
+        if ctx.may_start(name) {
+            let t0 = Instant::now();
+            let mut items = Vec::new();
+            for dict in tier.pick(vec![65537u32, 100000], vec![65537u32, 70000, 100000, 131072, 200000]) {
+                for total in [dict as usize - 1, dict as usize, dict as usize + 1, 2 * dict as usize + 77, 3 * dict as usize + 5] {
+                    for v in 0..3 {
+                        items.push((dict, total, v));
+                    }
+                }
+            }
+            par_for(items.len() as u64, |i| {
+                let (dict, total, v) = items[i as usize];
+                // 600 varied bytes, then long copies at varying (also far) distances with single literals in between
+                let mut prog: Vec<Sym> = (0..600u32).map(|b| Sym::L(((b * 67 + b / 7 + 3) & 0xFF) as u8)).collect();
+                let mut produced = 600usize;
+                let mut k = 0u32;
+                while produced < total {
+                    let room = total - produced;
+                    if room >= 2 && k % 5 != 4 {
+                        let l = room.min(273 - (k as usize * 13) % 100).max(2);
+                        let far = (produced.min(dict as usize) as u32).saturating_sub(1 + (k * 97) % 500).max(1);
+                        let d = if k % 3 == 0 { far } else { 1 + (k * 31) % 590 };
+                        prog.push(Sym::M(d, l as u32));
+                        produced += l;
+                    } else {
+                        prog.push(Sym::L((k * 29 + 1) as u8));
+                        produced += 1;
+                    }
+                    k += 1;
+                }
+                let var = match v {
+                    0 => Variant::Known { dict },
+                    1 => Variant::Marker { dict },
+                    _ => Variant::RawKnown { dict },
+                };
+                if let Some((b, _)) = build(3, 0, 2, &prog, var, dict as u64) {
+                    ctx.eval(1);
+                    ctx.nontriv(1);
+                    ctx.states.fetch_add(1, Ordering::Relaxed);
+                    ctx.transitions.fetch_add(1, Ordering::Relaxed);
+                    check_exact(&ctx, &b, &format!("{} output bytes through a {}-byte window (long copies at near and far distances) {:?}", total, dict, var));
+                }
+            });
+            ctx.scope_done(name, items.len() as u64, t0, "dictionaries 65537..200000, output up to 3 x dictionary");
+        }
+    }
+
     // ------------------------------------------------------------------ scope 4: all 225 lc/lp/pb
     {
         let name = "params/all-225";
